@@ -443,20 +443,22 @@ class SynEngine:
         except Exception as e:  # noqa
             self.violate('soundness', 'unreadable', str(e))
             return
-        ins = [str(i) for i in range(n)]
-        if net.inputs != ins:
-            self.violate('soundness', 'inputs', f'inputs {net.inputs}, expected {ins}')
+        if len(net.inputs) != n:
+            self.violate('soundness', 'inputs', f'{len(net.inputs)} inputs, the model has {n}')
             return
         internal = [g for g in net.gates if net.gates[g][0] != 'INPUT']
         if len(internal) != N:
             self.violate('soundness', 'gate-count', f'{len(internal)} gates, requested {N}')
             return
-        idx = {str(i): i for i in range(n)}
-        for g in internal:
-            if not (g.startswith('s') and g[1:].isdigit()):
-                self.violate('soundness', 'labels', f'unexpected gate label {g}')
-                return
-            idx[g] = int(g[1:])
+        # numbering of the API (inputs 0..n-1, gates n..n+N-1): the i-th input, and gates in the order cirbo's labels
+        # s<k> give; should a build label its gates differently, the storage order is the numbering
+        idx = {x: i for i, x in enumerate(net.inputs)}
+        if all(g.startswith('s') and g[1:].isdigit() for g in internal):
+            for g in internal:
+                idx[g] = int(g[1:])
+        else:
+            for i, g in enumerate(internal):
+                idx[g] = n + i
         bset = set(basis_tts)
         for g in internal:
             t, ops = net.gates[g]
@@ -486,7 +488,7 @@ class SynEngine:
         L = 1 << n
         mask = (1 << L) - 1
         try:
-            val = net.lanes({str(i): var_lanes(i, n) for i in range(n)}, mask)
+            val = net.lanes({x: var_lanes(i, n) for i, x in enumerate(net.inputs)}, mask)
         except ModelError as e:
             self.violate('soundness', 'uninterpretable', str(e))
             return
@@ -497,9 +499,10 @@ class SynEngine:
                              f'output {h} disagrees with the model on a defined entry: {desc}')
                 return
         # constraints
+        by_idx = {i: g for g, i in idx.items()}
         for g, fx in cons['fix'].items():
-            lab = 's' + str(g)
-            if lab not in net.gates:
+            lab = by_idx.get(g)
+            if lab is None or lab not in net.gates:
                 continue
             t, ops = net.gates[lab]
             a, b = idx[ops[0]], idx[ops[1]]
@@ -520,7 +523,7 @@ class SynEngine:
                 self.violate('soundness', 'constraint:fix_gate:gate_type', f'gate {g} has table {tt_of_type(t)}, fixed to {fx["tt"]}')
                 return
         for fr, to in cons['forbid']:
-            lab = 's' + str(to)
+            lab = by_idx.get(to)
             if lab in net.gates and fr in (idx[net.gates[lab][1][0]], idx[net.gates[lab][1][1]]):
                 self.violate('soundness', 'constraint:forbid_wire', f'wire {fr}->{to} is present although forbidden')
                 return
